@@ -178,7 +178,8 @@ DriftFree(c, k) ==
 
 \* Known finding F13: an upstream (or forwarder) reply whose alias chain ends at a name owned by a local zone
 \* supplies that name's records.  Recognised by its shape so that any other C01 violation is still reported:
-\* only Provenance fails, an exchange took place, and every offending record is owned by an alias target.
+\* only Provenance fails, and every offending record was supplied, in this run, by a reply whose answer section
+\* also holds a CNAME pointing at the record's owner.
 F13Shape(c, r) ==
     LET zs == ZonesOf(c)  res == ResOf(r)  n == Len(r.exchanges) IN
     /\ AuthOwns(zs, Q(r), res, n) /\ Override(zs, Q(r), res, n) /\ NameErrorOnlyAuth(zs, Q(r), res)
@@ -186,8 +187,11 @@ F13Shape(c, r) ==
     /\ n > 0 /\ c.mode # "auth"
     /\ \A i \in DOMAIN res.rrs :
           ~Provenance(zs, [res EXCEPT !.rrs = <<res.rrs[i]>>]) =>
-              /\ res.rrs[i].name # r.q.name
-              /\ \E j \in DOMAIN res.rrs : res.rrs[j].type = "CNAME" /\ res.rrs[j].target = res.rrs[i].name
+              \E j \in DOMAIN r.exchanges :
+                  LET e == r.exchanges[j] IN
+                  /\ e.reply.kind = "msg"
+                  /\ \E x \in Range(e.reply.answers) : Key(x) = Key(res.rrs[i])
+                  /\ \E x \in Range(e.reply.answers) : x.type = "CNAME" /\ x.target = res.rrs[i].name
 
 Say(ok, i, k, why) == IF ok THEN TRUE ELSE PrintT(<<"REJECT", i, k, why>>)
 
